@@ -85,11 +85,21 @@ def ident(m):
     return "NOMINAL" if i[-7:] == "NOMINAL" else i
 
 
+def pub(m, name, conv):
+    """a public property of the message, rendered; an exception raised by the getter becomes a token"""
+    try:
+        return conv(getattr(m, name))
+    except Exception as e:  # noqa
+        return "EXC:" + excname(e)
+
+
 def msgdump(m):
+    """what a user sees: the public properties (msg_cls, msg_id, msgmode, payload, length) and the public attributes;
+    the checksum has no public accessor"""
     attrs = ",".join(f"{k}={valstr(v)}" for k, v in m.__dict__.items() if k[0] != "_")
-    p = m._payload
-    return (f"cls={hx(m._ubxClass)} id={hx(m._ubxID)} mode={m._mode} payload={'None' if p is None else hx(p)} "
-            f"len={hx(m._length)} ck={hx(m._checksum)} ident={ident(m)} attrs=[{attrs}]")
+    return (f"cls={pub(m, 'msg_cls', hx)} id={pub(m, 'msg_id', hx)} mode={pub(m, 'msgmode', str)} "
+            f"payload={pub(m, 'payload', lambda p: 'None' if p is None else hx(p))} "
+            f"len={pub(m, 'length', lambda n: hx(int(n).to_bytes(2, 'little')))} ck={hx(m._checksum)} ident={ident(m)} attrs=[{attrs}]")
 
 
 def fulldump(m):
